@@ -522,7 +522,7 @@ def _validate_one(args):
         e = {"TRACE_FILE": fn, "TRACE_VERBOSE": "1" if verbose else "0"}
         if env:
             e.update(env)
-        r = tlc.run(spec_dir, module, cfgp, workers=1, timeout=timeout, env=e, deadlock=False)
+        r = tlc.run(spec_dir, module, cfgp, workers=1, timeout=timeout, env=e, deadlock=False, heap=_SHARD_HEAP[0])
         os.remove(fn)
         accepted |= set(int(x) for x in _ACC.findall(r.out))
         for a, b in _AT.findall(r.out):
@@ -541,8 +541,13 @@ def _validate_one(args):
     return accepted, at_all, inv_viol
 
 
+_SHARD_HEAP = ["8g"]
+
+
 def _validate_shards(spec_dir, module, cfgp, traces, shards, scratch, timeout, verbose, env=None):
     shards = max(1, shards)
+    # all shard JVMs together stay within ~32 GB however many shards run (16 x -Xmx8g exhausted a 62 GB box)
+    _SHARD_HEAP[0] = "%dg" % max(1, min(8, 32 // shards))
     stamp = "%d_%d" % (int(verbose), int(time.time() * 1000) % 1000000)
     jobs = []
     for i in range(shards):
